@@ -212,11 +212,11 @@ Definition oom_bm_clone_k {A : Type} (ok fail : aprog A) : aprog A :=
   oom_alloc (* :192 *)
     (oom_alloc (* :203 / :214 / :226 *) ok (AFree (* :206 / :216 / :229 *) fail))
     fail (* :194 *).
-(* varintBitmapDecode :601-714 on a well-formed buffer *)
+(* varintBitmapDecode :621-734 on a well-formed buffer *)
 Definition oom_bm_decode_k {A : Type} (ok fail : aprog A) : aprog A :=
-  oom_alloc (* :617 *)
-    (oom_alloc (* :632 / :654 / :683 *) ok (AFree (* :634 / :656 / :685 *) fail))
-    fail (* :619 *).
+  oom_alloc (* :637 *)
+    (oom_alloc (* :652 / :674 / :703 *) ok (AFree (* :654 / :676 / :705 *) fail))
+    fail (* :639 *).
 
 (* varintBitmapAdd :240-332.  present = the value is already a member.
    ok st' : the call returned normally (true, or false because present);
@@ -291,7 +291,7 @@ Fixpoint oom_bm_removes_k {A : Type} (st : oom_bst) (flags : list bool)
 Definition oom_bm_create_skel : aprog oom_outcome := oom_bm_create_k oom_ok oom_fail.
 Definition oom_bm_clone_skel : aprog oom_outcome := oom_bm_clone_k oom_ok oom_fail.
 Definition oom_bm_decode_skel : aprog oom_outcome := oom_bm_decode_k oom_ok oom_fail.
-(* varintBitmapEncode :563-599, varintBitmapToArray :786-793: no allocation *)
+(* varintBitmapEncode :583-619, varintBitmapToArray :810-817: no allocation *)
 Definition oom_bm_encode_skel : aprog oom_outcome := oom_ok.
 Definition oom_bm_to_array_skel : aprog oom_outcome := oom_ok.
 
@@ -302,32 +302,32 @@ Definition oom_bm_add_skel (st : oom_bst) (present : bool) : aprog oom_outcome :
 Definition oom_bm_remove_skel (st : oom_bst) (present : bool) : aprog oom_outcome :=
   oom_bm_remove_k st present (fun _ => oom_ok) oom_fail.
 
-(* varintBitmapAddMany :779-788 (bool since 6f9b0d5); flags = membership of
+(* varintBitmapAddMany :799-808 (bool since 6f9b0d5); flags = membership of
    each value at the time it is added *)
 Definition oom_bm_add_many_skel (st : oom_bst) (flags : list bool) : aprog oom_outcome :=
   oom_bm_adds_k st flags (fun _ => oom_ok) oom_fail.
 
-(* varintBitmapAddRange :839-885; nonempty_range = (min < max),
+(* varintBitmapAddRange :863-903; nonempty_range = (min < max),
    big = (max - min > 4096), flags = membership of min, min+1, ... *)
 Definition oom_bm_add_range_skel (st : oom_bst) (nonempty_range big : bool) (flags : list bool)
   : aprog oom_outcome :=
-  if negb nonempty_range then oom_ok (* :840-842 *)
+  if negb nonempty_range then oom_ok (* :864-866 *)
   else if big && (ob_card st =? 0) then
-    (* :848-873 single run: allocated before the old container is released *)
-    oom_alloc (* :850 *) (AFree (* :854-860 *) oom_ok) oom_fail (* :852 *)
-  else oom_bm_adds_k st flags (fun _ => oom_ok) oom_fail (* :877-881 *).
+    (* :872-894 single run: allocated before the old container is released *)
+    oom_alloc (* :874 *) (AFree (* :878-884 *) oom_ok) oom_fail (* :876 *)
+  else oom_bm_adds_k st flags (fun _ => oom_ok) oom_fail (* :897-902 *).
 
-(* varintBitmapRemoveRange :887-894 *)
+(* varintBitmapRemoveRange :905-912 *)
 Definition oom_bm_remove_range_skel (st : oom_bst) (flags : list bool) : aprog oom_outcome :=
   oom_bm_removes_k st flags (fun _ => oom_ok) oom_fail.
 
 (* varintBitmapAnd :453-497, Xor :515-541, AndNot :543-559: Create, then one
-   Add per member of the result (all new); resultAdd_ :441-451 frees the
+   Add per member of the result (all new); resultAdd_ :444-451 frees the
    partial result on failure.  m_flags = one `false` per member. *)
 Definition oom_bm_fresh_setop_skel (m_flags : list bool) : aprog oom_outcome :=
   oom_bm_create_k
     (oom_bm_adds_k oom_bm_created m_flags (fun _ => oom_ok)
-                   (oom_bm_free_k (* :448 *) oom_fail (* return NULL *)))
+                   (oom_bm_free_k (* :449 *) oom_fail (* return NULL *)))
     oom_fail.
 (* varintBitmapOr :499-513: Clone(vb1), then Add every member of vb2 *)
 Definition oom_bm_or_skel (st1 : oom_bst) (flags : list bool) : aprog oom_outcome :=
@@ -364,42 +364,42 @@ Definition oom_adp_encode_with_k {A : Type} (t : N) (f : oom_adp_facts)
     oom_alloc (* :340 *) (AFree (* :350 *) ok) fail (* :342 *)
   else if t =? 1 then ok (* FOR :354-362 *)
   else if t =? 2 then
-    (* PFOR :364-377; 0 from the encoder and count > 0 -> return 0 *)
+    (* PFOR :364-376; 0 from the encoder and count > 0 -> return 0 *)
     oom_pfor_encode_k (oaf_nonempty f) (oaf_pfor_exc f) ok fail (* :368-370 *)
   else if t =? 3 then
-    (* DICT :379-385; count = 0: the encoder returns 0 without allocating,
+    (* DICT :378-384; count = 0: the encoder returns 0 without allocating,
        the header byte alone is returned *)
-    if oaf_nonempty f then oom_dict_transient_k (oaf_dict_grow f) ok fail (* :381-383 *)
+    if oaf_nonempty f then oom_dict_transient_k (oaf_dict_grow f) ok fail (* :380-382 *)
     else ok
   else if t =? 4 then
-    (* BITMAP :387-406 *)
+    (* BITMAP :386-405 *)
     oom_bm_create_k
       (oom_bm_adds_k oom_bm_created (oaf_bm_flags f)
-         (fun _ => oom_bm_free_k (* :405 *) (if oaf_bm_valid f then ok else wrong))
-         (oom_bm_free_k (* :398 *) fail (* :399 *)))
+         (fun _ => oom_bm_free_k (* :403 *) (if oaf_bm_valid f then ok else wrong))
+         (oom_bm_free_k (* :397 *) fail (* :398 *)))
       fail (* :390 *)
-  else ok (* TAGGED :409-418 *).
+  else ok (* TAGGED :407-417 *).
 Definition oom_adp_encode_with_skel (t : N) (f : oom_adp_facts) : aprog oom_outcome :=
   oom_adp_encode_with_k t f oom_ok (ARet OomOkWrong) oom_fail.
 
-(* varintAdaptiveEncode :429-452: analysis (its allocation may fail: the
+(* varintAdaptiveEncode :429-451: analysis (its allocation may fail: the
    selection is then made with uniqueCount = count), EncodeWith(selected),
    TAGGED when that returned 0 *)
 Definition oom_adp_encode_skel (two_or_more : bool) (sel sel_fallback : N) (f : oom_adp_facts)
   : aprog oom_outcome :=
   let enc (t : N) :=
     oom_adp_encode_with_k t f oom_ok (ARet OomOkWrong)
-      (if t =? 5 then oom_fail else oom_ok (* :443-450 TAGGED retry *)) in
+      (if t =? 5 then oom_fail else oom_ok (* :441-449 TAGGED retry *)) in
   oom_adp_unique_k two_or_more (enc sel) (enc sel_fallback).
 
-(* varintAdaptiveDecode :458-563 on the stream EncodeWith(t) produced *)
+(* varintAdaptiveDecode :457-562 on the stream EncodeWith(t) produced *)
 Definition oom_adp_decode_skel (t : N) : aprog oom_outcome :=
-  if t =? 3 then oom_dict_decode_into_k oom_ok oom_fail (* :501 *)
+  if t =? 3 then oom_dict_decode_into_k oom_ok oom_fail (* :500 *)
   else if t =? 4 then
-    oom_bm_decode_k (* :507 *)
-      (oom_alloc (* :516 shortValues *)
-         (AFree (* :527 *) (oom_bm_free_k (* :529 *) oom_ok))
-         (oom_bm_free_k (* :529 *) oom_fail (* decoded = 0 *)))
+    oom_bm_decode_k (* :506 *)
+      (oom_alloc (* :515 shortValues *)
+         (AFree (* :526 *) (oom_bm_free_k (* :528 *) oom_ok))
+         (oom_bm_free_k (* :528 *) oom_fail (* decoded = 0 *)))
       oom_fail
   else oom_ok.
 
